@@ -117,6 +117,11 @@ func (r *Reader) readBlock() (rerr error) {
 		}
 		r.data = data
 	case encodedNone:
+		if rawSize != dataSize {
+			return errors.Errorf("unexpected uncompressed data size: %d (actual) != %d (got in header)",
+				rawSize, dataSize,
+			)
+		}
 		copy(r.data, r.raw[headerSize:])
 	default:
 		return errors.Errorf("compression 0x%02x not implemented", m)
